@@ -271,12 +271,15 @@ def monitor(obs):
     consumed = [s[1] if isinstance(s, tuple) else s for s in obs["samplers"]][1:]
     learns = [e for e in obs["log"] if e[0] == "learn"]
     pols = [e[1] for e in obs["log"] if e[0] == "policy"]
-    # every executed / consumed action was chosen by the agent, in order
+    # every executed batch was produced by the sampler the agent chose, in order (a batch aborted by a fault after its action was
+    # taken does not use up a choice: the agent's choice stays pending and may be executed by the retry)
     it = iter(pols)
-    for j, s in enumerate(consumed):
+    for j, s in enumerate(ran if obs.get("faults") else consumed):
         if not any(p == s for p in it):
             v.append(("sampler-not-chosen-by-agent", f"batch {j + 1} ran sampler {s}, which does not match the agent's choices {pols} in order"))
             break
+    if obs.get("faults") and not v and ran != pols[:len(ran)]:
+        v.append(("sampler-not-chosen-by-agent", f"executed agent-chosen batches {ran} are not the agent's choices {pols} in order (a choice was skipped or used twice around a failed batch)"))
     rew = reference_rewards(obs["losses"])
     if len(learns) > len(ran):
         v.append(("learn-unexecuted", f"agent learned {len(learns)} times for {len(ran)} executed agent-chosen batches: {learns} vs executed {ran}"))
